@@ -476,6 +476,40 @@ def lower_bound(expr, ctx, fn, defs):
     return None
 
 
+def c07_2b(ck, prog):
+    r = ck.rule('C07.2b', 'the rule tokeniser reports success only when it consumed the whole rule text: at every '
+                'successful exit the position is known not to be before the end of the text', 'TS',
+                breaks='what follows the last key/value pair the tokeniser has room for is silently ignored: a rule '
+                'with trailing garbage is accepted, and a rule with a restricting key in that position matches more '
+                'than was asked for', floor=1)
+    fn = prog.fn('tokenize_rule', SIG)
+    text = fn.params[0]['id']
+    posv = [lhs for b, i, ev in fn.events() for lhs, how, rhs in written_lvalues(ev)
+            if is_ref(lhs) and lhs.get('kind') == 'local' and how == '&arg' and is_call(rhs, ('find_key', 'find_value'))]
+    ids = {v['id'] for v in posv}
+    if not ids:
+        raise AnalysisBroken('tokenize_rule: position variable not found')
+
+    def akey(atom, resolve):
+        if atom[0] == 'cmp' and atom[1] == '<' and is_ref(atom[2]) and atom[2].get('id') in ids \
+                and is_call(atom[3], '_dbus_string_get_length') and is_ref(atom[3]['args'][0]) \
+                and atom[3]['args'][0].get('id') == text:
+            return ('more-text', frozenset([atom[2]['id']]))
+        return None
+
+    def on_exit(user, ctx, ret, ev):
+        if ctx.ret_status(ret) == 'fail':
+            return
+        if not any(k[0] == 'more-text' and v is False for k, v in ctx.atoms().items() if isinstance(k, tuple)):
+            ctx.report('tokenize_rule can report success while text remains after the last token it stored (the '
+                       'loop also ends when the token array is full)', ev['line'] if ev else fn.line, key='text-left')
+    ex = Explorer(fn, on_exit=on_exit, atom_key=akey, track='auto', calls={'find_key', 'find_value'}, cap=600000).run()
+    if ex.reports:
+        r.from_reports(ex.reports, keyfn=lambda k, rep: 'tokenize_rule:%s' % k)
+    else:
+        r.ok('tokenize_rule:whole-text-consumed')
+
+
 def c07_3(ck, prog):
     r = ck.rule('C07.3', 'no negative subscript in the matcher and rule parser: every index of the form '
                 'n - c is proved >= 0 on every path (interval reasoning with branch refinement)', 'ABS',
@@ -845,6 +879,7 @@ def run(ck):
     for v, prog in ck.programs(thorough_variants=('B',)):
         c07_1(ck, prog)
         c07_2(ck, prog)
+        c07_2b(ck, prog)
         c07_3(ck, prog)
         c07_4(ck, prog)
         c07_5(ck, prog)
